@@ -23,12 +23,89 @@ def pregen():
 
 
 def prebuild():
+    import C02
     s, o = sc.build_sim()
-    return None if s else o
+    if not s:
+        return o
+    e, o = C02.build_impl()
+    return None if e else o
 
 
 def oracle(line, evs, meta):
     return sc.oracle_api_program(evs, meta, meta.get("_out", ""))
+
+
+# ------------------------------------------------------------------ ICE-TCP life cycles (real loopback TCP, harness/data_h.c of C02)
+def gen_tcp_life(rng, i):
+    """two real agents over loopback ICE-TCP (one process per case, ASan+UBSan+LSan): traffic, then one side's connection goes away - its
+    stream is removed (D) or the network drops the connection (L) - while the other side keeps using the API: state / selected pair /
+    remote candidates / send (Q), scatter sends, receive calls, attach / detach, long idle periods (keepalives on the dead pair)."""
+    rel = rng.random() < 0.3
+    cfg = "r%db%dk%ds%d" % (rel, 1 if rel and rng.random() < 0.5 else 0, rng.randrange(2), rng.randrange(1, 1000))
+    ops, ctr = [], [1]
+
+    def send(a):
+        ctr[0] += 1
+        return "S%d;%s;g%d" % (a, rng.choice(["5", "100", "1.2.3", "1200", "63488.100", "20000.20000.30000", "0.7.0"]), ctr[0])
+    for _ in range(rng.randrange(0, 4)):
+        ops.append(send(rng.randrange(2)))
+        if rng.random() < 0.6:
+            ops.append("P")
+    if rng.random() < 0.3:
+        ops.append("W%d;%s" % (rng.randrange(2), rng.choice(["7", "1.b", "100.b.b"])))       # a partial write / blocked socket leaves bytes queued
+        ops.append(send(rng.randrange(2)))
+    victim = rng.randrange(2)
+    other = 1 - victim
+    attached = [True, True]
+    ops.append(rng.choice(["D%d", "L%d", "L%d"]) % victim)
+    for _ in range(rng.randrange(2, 12)):
+        r = rng.random()
+        if r < 0.2: ops.append("P")
+        elif r < 0.3: ops.append("p%d" % rng.choice([other, other, victim]))
+        elif r < 0.4: ops.append("t%d;%d" % (other, rng.choice([1, 100, 3000, 30000])))
+        elif r < 0.6: ops.append("Q%d" % rng.choice([other, other, victim]))
+        elif r < 0.72: ops.append(send(rng.choice([other, other, victim])))
+        elif r < 0.8:
+            # the receive call must not be combined with a receive callback (API documentation): detach first
+            if attached[other]:
+                ops.append("C%d;0" % other); attached[other] = False
+            ops.append("G%d;%s" % (other, rng.choice(["70000", "3.70000", "0.70000"])))
+        elif r < 0.88:
+            attached[other] = not attached[other]
+            ops.append("C%d;%d" % (other, int(attached[other])))
+        elif r < 0.94: ops.append("T%d" % rng.choice([50, 6000, 31000]))
+        else: ops.append(rng.choice(["D%d", "L%d"]) % rng.randrange(2))
+    ops += ["P", "Q0", "Q1", "P"]
+    return "tl%d %s %s" % (i, cfg, " ".join(ops)), {"kind": "tcp-life-" + ("reliable" if rel else "plain")}
+
+
+def tcp_lifecycle(chk):
+    import C02
+    impl, o = C02.build_impl()
+    if not impl:
+        chk.broken_obligation("impl-build-data_h", o[-3000:]); return
+    n = 64 if chk.tier == "quick" else 3000
+    cases = [gen_tcp_life(chk.rng, i) for i in range(n)]
+    lines = [c[0] + "\n" for c in cases]
+    nviol = notready = 0
+    for lo in range(0, len(lines), 256):
+        part = lines[lo:lo + 256]
+        outs, errs = vlib.run_sharded(impl, part, nshards=len(part), timeout=600, env=dict(LSAN_OPTIONS="max_leaks=4", ASAN_OPTIONS="detect_leaks=1:abort_on_error=0"))      # one process per case
+        for idx, rc, se in errs:
+            nviol += 1
+            if nviol <= 3:
+                chk.violation({"kind": "impl-crash", "what": "tcp-life-C12", "case": cases[lo + idx][0], "rc": rc, "stderr": se[-3000:]},
+                              "tcp-life-C12: implementation crashed, aborted, leaked or sanitizer report (rc=%s) on case: %s\n%s" % (rc, cases[lo + idx][0][:300], se[-1500:]))
+        for k, out in enumerate(outs):
+            line, meta = cases[lo + k]
+            chk.count_case(line, out is not None and " READY" in out and " q" in out, meta["kind"])
+            if out is not None and " NOTREADY" in out:
+                notready += 1
+            if lo + k < 2 and out is not None:
+                chk.sample({"case": line[:300], "impl": out[:300]})
+    chk.cov["correspondence"]["tcp-life-C12"] = {"cases": len(cases), "not_ready": notready}
+    if notready * 4 > len(cases):
+        chk.broken_obligation("harness:tcp-life-C12", "%d of %d cases did not reach READY over loopback TCP" % (notready, len(cases)))
 
 
 def run(chk):
@@ -39,6 +116,7 @@ def run(chk):
     n = 1500 if chk.tier == "quick" else 60000
     cases = [sc.gen_api_program(chk.rng, i) for i in range(n)]
     sc.run_sim(chk, cases, oracle, "sim-C12", leaks=True, compare=False)
+    tcp_lifecycle(chk)
     return chk.finish(**FINISH)
 
 
